@@ -72,7 +72,7 @@ const (
 func allQueries() []query {
 	type pa struct {
 		class, key string
-		fs        []flt
+		fs         []flt
 	}
 	b58 := func(b []byte) string { return b58enc(b) }
 	var ps []pa
